@@ -6,7 +6,7 @@ from hypothesis import strategies as st
 
 from vlib import gen_ops
 from vlib.build import FLAVOURS
-from vlib.core import Part
+from vlib.core import Part, optimized_part
 from vlib.invariants import index_exact, structural
 from vlib.ops import Engine, engine_known, flush_excluded
 
@@ -64,9 +64,14 @@ def run(case, rec):
         if out.plan.status == "valid" and out.raised is None and target_in_group:
             hit_clone_group = True
             rec.cls(f"clone-group-op={op[0]}")
-        problems, w = structural(eng.tree)
+        problems, w = structural(eng.tree, eng.ever)
         if w.problems:
             rec.cls("abandoned:tree-not-walkable(C01)")
+            return
+        # the node_id lookups are part of this property: no removed node, no missing node
+        by_nid = [p for p in problems if p[0] in ("find_first(node_id)-misses-reachable-node", "removed-node-still-found-by-node_id")]
+        if by_nid:
+            rec.fail(f"{by_nid[0][0]}:after:{out.plan.route.split(':')[0]}", {"op": op, "route": out.plan.route, "detail": by_nid[0][1]})
             return
         for cat, bucket, detail in out.events:
             if cat == "effect" and bucket.endswith(":data_id"):
@@ -101,4 +106,5 @@ def hyp_cases(draw, tier):
 
 PARTS = [
     Part("histories", run, strategy=hyp_cases, n={"quick": 1500, "thorough": 200000}),
+    optimized_part("C02", ['histories']),
 ]
